@@ -6,6 +6,7 @@ mod c12;
 mod c14;
 mod c15;
 mod c16;
+mod c17;
 mod coq;
 mod corpus;
 mod ctier;
